@@ -653,7 +653,27 @@ func (pt *prattTables) parseExprCalls(fd *ast.FuncDecl, tokParam types.Object) [
 		if !ok || sel.Sel.Name != "parseExpression" {
 			return true
 		}
-		out = append(out, pt.classifyRbp(call.Args[0], tokParam))
+		arg := call.Args[0]
+		// a binding power hoisted into a local (`rbp := p.bp(t.Type) - 1`)
+		if id, ok := arg.(*ast.Ident); ok {
+			if obj := pt.pkg.TypesInfo.Uses[id]; obj != nil {
+				var defs []ast.Expr
+				ast.Inspect(fd.Body, func(m ast.Node) bool {
+					if as, ok := m.(*ast.AssignStmt); ok && len(as.Lhs) == len(as.Rhs) {
+						for i, l := range as.Lhs {
+							if li, ok := l.(*ast.Ident); ok && (pt.pkg.TypesInfo.Defs[li] == obj || pt.pkg.TypesInfo.Uses[li] == obj) {
+								defs = append(defs, as.Rhs[i])
+							}
+						}
+					}
+					return true
+				})
+				if len(defs) == 1 {
+					arg = defs[0]
+				}
+			}
+		}
+		out = append(out, pt.classifyRbp(arg, tokParam))
 		return true
 	})
 	return out
